@@ -268,7 +268,11 @@ func newStack(e *env, sc *scen, beKind, shape string) *rstack {
 		}
 	}
 	for k, v := range sc.L1Init {
-		s.ly[0].Put([]byte(k), v)
+		if v == nil {
+			s.ly[0].Delete([]byte(k))
+		} else {
+			s.ly[0].Put([]byte(k), v)
+		}
 	}
 	return s
 }
